@@ -96,6 +96,11 @@ fn base_models(rep: &Report, kinds: &[Kind]) -> Vec<ModelDef> {
     }
     v.extend(defs("Uedge", u::uedge(), kinds, false));
     v.extend(defs_named(u::uadv(rep.thorough()), kinds, false));
+    // the pattern lists that select each prefilter variant (memmem, start
+    // bytes, rare bytes, packed): with the long-template replays the search
+    // loops run together with every kind of prefilter
+    let pre: Vec<(String, u::Pats)> = crate::e3::prefilter_families().into_iter().filter(|f| !f.ci).map(|f| (format!("Upre:{}", f.name), f.pats)).collect();
+    v.extend(defs_named(pre, kinds, false));
     v
 }
 
@@ -107,6 +112,8 @@ fn ci_models(rep: &Report, kinds: &[Kind]) -> Vec<ModelDef> {
         .collect();
     v.extend(defs_named(adv, kinds, true));
     v.extend(defs("U0ci", u::u0(), kinds, true));
+    let pre: Vec<(String, u::Pats)> = crate::e3::prefilter_families().into_iter().filter(|f| f.ci).map(|f| (format!("Upre:{}", f.name), f.pats)).collect();
+    v.extend(defs_named(pre, kinds, true));
     v
 }
 
@@ -388,13 +395,13 @@ fn run_e1(rep: &Report) -> i32 {
         .set("models", J::i(rep.get("models") + rep.get("deep_models")))
         .set("deep_models_table_level_only", J::i(rep.get("deep_models")))
         .set("rule", J::s(rule))
-        .set("nontrivial_rule", J::s("a model (pattern list x match kind x folding) counts once; every model builds 15+ real automata and reaches at least one match state"))
+        .set("nontrivial_rule", J::s("a model (pattern list x match kind x folding) counts once; full models build 30 low-level + 18 top-level real searchers, deep (table-level) models build a noncontiguous NFA and a contiguous NFA and DFA from it"))
         .set("match_states_reached", J::i(rep.get("match_states_reached")))
         .set("dead_reached", J::i(rep.get("dead_reached")))
         .set("exhaustive", J::Bool(true))
         .set("bounds", J::s(format!(
             "haystack length unbounded for the table exploration (closed reachable product, cap {} states/model never hit); API replays: layer-2 haystacks up to {} bytes ({} strings budget per model), every span for length <= {}; pattern-list universes per DESIGN.md 2.3 ({})",
-            crate::e1::STATE_CAP, o.layer2_cap, o.layer2_budget, o.span_len, if t { "U2+Uedge+Uadv" } else { "U1+Uedge+Uadv" }
+            crate::e1::STATE_CAP, o.layer2_cap, o.layer2_budget, o.span_len, if t { "U2+Uedge+Uadv, deep: Tuples+Subs thorough sets" } else { "U1+Uedge+Uadv, deep: Tuples+Subs quick sets" }
         )))
         .set("design_ref", J::s(design));
     if (states == 0 || transitions == 0) && rep.nviol() == 0 {
